@@ -46,6 +46,11 @@ def fmd(x=DEF_LIST, y=DEF_LIST, z=(1, 2)):
   return sigs.Rec('fmd', (x, y, z), (), (), {})
 
 
+def fpo(a, b=10, c=20, /, d=30):
+  """A positional-only parameter without a default in front of positional-only parameters with (different) defaults."""
+  return sigs.Rec('fpo', (a, b, c, d), (), (), {})
+
+
 def fsh(x=[7], y=None):  # pylint: disable=dangerous-default-value
   return sigs.Rec('fsh', (x, y), (), (), {})
 
@@ -217,6 +222,9 @@ def _member(sa, sb, sc, sv, sk, d1, m0, tg, lv):
   elif sk == 6:
     shared = [n0, lv]
     root.k = (shared, {'s': shared}, fdl.Partial(fam.g3, x=shared))
+  elif sk == 9:
+    # required positional-only parameter followed by defaulted positional-only ones: set, partly set, left open
+    root.k = [fdl.Config(fpo, lv), fdl.Config(fpo, lv, 11), {'p': fdl.Partial(fpo)}, fdl.Partial(fpo, lv, 10, 20, d=lv)]
   elif sk == 8:
     # Partials configured through positional arguments only (positional-only parameter, *args), next to ones that set
     # a positional parameter to its default
@@ -271,8 +279,17 @@ def _serializable(cfg):
 def _all_defaults_set(cfg):
   for b in buildables(cfg):
     params = list(b.__signature_info__.parameters.values())
+    gap = False
     for i, p in enumerate(params):
+      if p.default is p.empty and p.kind == p.POSITIONAL_ONLY and i not in b.__arguments__:
+        gap = True                       # an unset required positional-only parameter ...
       if p.default is p.empty or p.kind in (p.VAR_POSITIONAL, p.VAR_KEYWORD):
+        continue
+      if gap and p.kind == p.POSITIONAL_ONLY:
+        # ... positional-only defaults behind it cannot be passed at all (setting them makes a Partial that leaves the
+        # required one open unbuildable - the build clause of the property takes precedence; fixed: b95f257)
+        if i in b.__arguments__:
+          return False
         continue
       fn = fdl.get_callable(b)
       if dataclasses.is_dataclass(fn) and any(
@@ -285,10 +302,10 @@ def _all_defaults_set(cfg):
 
 def c20_transform(t: int, sa: int, sb: int, sc: int, sv: int, sk: int, d1: int, m0: int, tg: int, lv: int) -> bool:
   """
-  require: 0 <= t <= 9 and 0 <= sa <= 2 and 0 <= sb <= 2 and 0 <= sc <= 2 and 0 <= sv <= 1 and 0 <= sk <= 8
+  require: 0 <= t <= 9 and 0 <= sa <= 2 and 0 <= sb <= 2 and 0 <= sc <= 2 and 0 <= sv <= 1 and 0 <= sk <= 9
   require: 0 <= d1 <= 2 and 0 <= m0 <= 5 and 0 <= tg <= 2
   """
-  sa, sb, sc, sv, sk = _conc(sa, 0, 2), _conc(sb, 0, 2), _conc(sc, 0, 2), _conc(sv, 0, 1), _conc(sk, 0, 8)
+  sa, sb, sc, sv, sk = _conc(sa, 0, 2), _conc(sb, 0, 2), _conc(sc, 0, 2), _conc(sv, 0, 1), _conc(sk, 0, 9)
   d1, m0, tg = _conc(d1, 0, 2), _conc(m0, 0, 5), _conc(tg, 0, 2)
   x = _member(sa, sb, sc, sv, sk, d1, m0, tg, lv)
   before = canon(x)
@@ -355,10 +372,17 @@ PROGS = [prog0, prog1, prog2, prog3]
 def c20_inline(prog: int, how: int, nested: int, p: int, q: int) -> bool:
   """
   auto_config.inline(cfg) keeps what cfg builds (also when cfg is a shared node of a larger configuration).
-  require: 0 <= prog <= 3 and 0 <= how <= 2 and 0 <= nested <= 2
+  how 3: the arguments of the inlined call are a list and a Config that the enclosing configuration also reaches by
+  other paths (aliasing between the inlined part and its surroundings).
+  require: 0 <= prog <= 3 and 0 <= how <= 3 and 0 <= nested <= 2
   """
   fn = PROGS[_conc(prog, 0, 3)]
-  if how == 0:
+  extra = None
+  if how == 3:
+    shared_list, shared_cfg = [p], fdl.Config(_leaf, q)
+    cfg = fdl.Config(fn, shared_list, q=shared_cfg)
+    extra = [shared_list, {'c': shared_cfg}]
+  elif how == 0:
     cfg = fdl.Config(fn, p)
   elif how == 1:
     cfg = fdl.Config(fn, p=p, q=q)
@@ -368,9 +392,9 @@ def c20_inline(prog: int, how: int, nested: int, p: int, q: int) -> bool:
   if nested == 0:
     root = cfg
   elif nested == 1:
-    root = fdl.Config(fam.g1, x=[cfg, cfg], y=cfg)
+    root = fdl.Config(fam.g1, x=[cfg, cfg], y=cfg, z=extra)
   else:
-    root = fdl.Config(fam.g1, x={'a': cfg}, y=fdl.Config(fam.g0, x=cfg))
+    root = fdl.Config(fam.g1, x={'a': cfg}, y=fdl.Config(fam.g0, x=cfg, y=extra))
   want = _built(root)
   ac.inline(cfg)
   note('c20i', prog, how, nested)
@@ -407,7 +431,7 @@ def c20_dataclasses(shape: int, share: bool, a: int, v: int) -> bool:
 def obligations(tier, seed):
   cubes = []
   for t in range(10):
-    for sk in range(9):
+    for sk in range(10):
       if tier == 'quick':
         j = t + sk
         fix = dict(t=t, sk=sk, sv=j % 2, d1=j % 3, tg=(j // 2) % 3, sb=(j // 3) % 3)
@@ -420,10 +444,10 @@ def obligations(tier, seed):
   smoke = dict(t=0, sa=1, sb=0, sc=2, sv=1, sk=1, d1=2, m0=2, tg=1, lv=3)
   return [
       Obligation('c20_transform', c20_transform, cubes, timeout=t_, path_timeout=40, smoke=smoke,
-                 extra_smokes=[dict(smoke, t=t, sk=(t % 9), tg=t % 3, m0=(t % 2) * 2) for t in range(10)] + [dict(smoke, t=4, sk=8)]),
+                 extra_smokes=[dict(smoke, t=t, sk=(t % 10), tg=t % 3, m0=(t % 2) * 2) for t in range(10)] + [dict(smoke, t=4, sk=8), dict(smoke, t=0, sk=9)]),
       Obligation('c20_inline', c20_inline, [Cube(f'p{p}_h{h}_n{n}', [], dict(prog=p, how=h, nested=n)) for p in range(4)
-                                            for h in range(3) for n in range(3)], timeout=120, path_timeout=40,
-                 smoke=dict(prog=1, how=1, nested=1, p=3, q=4)),
+                                            for h in range(4) for n in range(3)], timeout=120, path_timeout=40,
+                 smoke=dict(prog=1, how=1, nested=1, p=3, q=4), extra_smokes=[dict(prog=0, how=3, nested=2, p=3, q=4)]),
       Obligation('c20_dataclasses', c20_dataclasses, [Cube(f's{s}_{int(sh)}', [], dict(shape=s, share=sh)) for s in range(5)
                                                       for sh in (False, True)], timeout=120, path_timeout=40,
                  smoke=dict(shape=2, share=True, a=3, v=4)),
